@@ -103,6 +103,10 @@ struct result
 int for_each_behaviour(std::string const& path, std::size_t skip
 	, std::function<result(std::size_t, json::value const&)> const& fn);
 
+// opens the trace file of a recorder; when resuming after a crash (skip > 0) the file is first cut
+// back to the end of the last complete run (a line starting with {"e":"End or {"e":"Abandon")
+std::FILE* open_trace(std::string const& path, std::size_t skip);
+
 // ndjson tracer
 struct tracer
 {
